@@ -552,6 +552,39 @@ func init() {
 		args, shape := c.ufArgs(st, a[1].(SliceV))
 		return UF(fmt.Sprintf("%s_%s", a[0].(string), shape), BV(64), args...)
 	}
+	V["UFBV"] = func(c *Ctx, st *State, a []Value, site ssa.Instruction) Value {
+		// UFBV(name, width, args ...BV) BV
+		w, _ := concreteInt(a[1])
+		var args []*Term
+		shape := ""
+		for _, v := range st.sliceLoadAll(a[2].(SliceV)) {
+			args = append(args, termOf(v))
+			shape += fmt.Sprintf("_%d", termOf(v).sort.W)
+		}
+		return UF(fmt.Sprintf("%s%s_o%d", a[0].(string), shape, w), BV(w), args...)
+	}
+	V["UFBVBool"] = func(c *Ctx, st *State, a []Value, site ssa.Instruction) Value {
+		var args []*Term
+		shape := ""
+		for _, v := range st.sliceLoadAll(a[1].(SliceV)) {
+			args = append(args, termOf(v))
+			shape += fmt.Sprintf("_%d", termOf(v).sort.W)
+		}
+		return UF(fmt.Sprintf("%s%s", a[0].(string), shape), BoolSort, args...)
+	}
+	V["BVToBytes"] = func(c *Ctx, st *State, a []Value, site ssa.Instruction) Value {
+		v := termOf(a[0])
+		out := a[1].(SliceV)
+		if v.sort.W != 8*out.Len {
+			fail("BVToBytes: width %d into %d bytes", v.sort.W, out.Len)
+		}
+		vals := make([]Value, out.Len)
+		for i := range vals {
+			vals[i] = Extract(v, 8*i+7, 8*i)
+		}
+		st.sliceStoreAll(out, vals)
+		return nil
+	}
 	V["UFInt"] = func(c *Ctx, st *State, a []Value, site ssa.Instruction) Value {
 		// UFInt(name, args ...Int) Int
 		var args []*Term
@@ -584,6 +617,29 @@ func init() {
 		storeKeepGhost(st, p, n)
 		return nil
 	}
+	V["GhostSetBV"] = func(c *Ctx, st *State, a []Value, site ssa.Instruction) Value {
+		return V["GhostSet"](c, st, a, site)
+	}
+	V["GhostGetBV"] = func(c *Ctx, st *State, a []Value, site ssa.Instruction) Value {
+		p := ghostPtr(a[0])
+		sv, ok := st.load(p).(*StructV)
+		if !ok {
+			fail("GhostGetBV on a non-struct location")
+		}
+		attr := a[1].(string)
+		if v, ok := sv.G[attr]; ok {
+			return v
+		}
+		w, _ := concreteInt(a[2])
+		v := Var(c.freshName("ghost_"+attr), BV(w))
+		n := &StructV{F: sv.F, G: map[string]Value{}}
+		for k, x := range sv.G {
+			n.G[k] = x
+		}
+		n.G[attr] = v
+		storeKeepGhost(st, p, n)
+		return v
+	}
 	V["GhostGet"] = func(c *Ctx, st *State, a []Value, site ssa.Instruction) Value {
 		p := ghostPtr(a[0])
 		sv, ok := st.load(p).(*StructV)
@@ -596,6 +652,9 @@ func init() {
 		}
 		// unconstrained ghost value, created on first use and remembered
 		v := Var(c.freshName("ghost_"+attr), IntSort)
+		if c.trace {
+			fmt.Printf("[ghost] fresh %s for %s at %s (stack %s)\n", v.name, attr, c.posOf(site), strings.Join(c.callSites(), "<"))
+		}
 		n := &StructV{F: sv.F, G: map[string]Value{}}
 		for k, x := range sv.G {
 			n.G[k] = x
